@@ -1,10 +1,11 @@
-From Verif Require Import Common C01_Model C01_Spec C01_Monitor.
+From Verif Require Import Common C01_Model C01_Spec C01_Monitor C01_Hist C01_HistSpec.
 From Verif Require Op_Model Op_Corr Op_Spec C01_OpSpec.
 Open Scope N_scope.
 
 Inductive case := CInf (i : input) (o : observation) | CMon (i : min) (o : mobs)
   | CStress (i : input) (o : observation)    (* free-running goroutines: judged by P_free only *)
-  | COp (c : Op_Corr.case).                   (* the whole operator (Op_Model): unlock only by the binding's own Synchronization *)
+  | COp (c : Op_Corr.case)                    (* the whole operator (Op_Model): unlock only by the binding's own Synchronization *)
+  | CHist (i : hist_in) (o : hobs).           (* namespace.labelSelector: events over histories of namespaces and objects (C01_Hist) *)
 
 (* ghost of the run: changes picked up when the last Synchronization read before the first
    unlock was taken (computed by the model run itself) *)
@@ -26,17 +27,22 @@ Definition obs_of (s : state) : observation :=
        (match out_before_e s with Some n => n | None => N.of_nat (length (out s)) end)
        (finished s) false.
 
-Inductive mo := MoInf (o : observation) | MoMon (o : mobs) | MoOp (o : list Op_Corr.sobs).
+Inductive mo := MoInf (o : observation) | MoMon (o : mobs) | MoOp (o : list Op_Corr.sobs) | MoHist (o : hobs).
 Definition model_obs (c : case) : mo :=
   match c with
   | CInf i _ => MoInf (obs_of (run i))
   | CMon i _ => MoMon (mobserve i)
   | CStress i _ => MoInf (obs_of (run i))
   | COp c => MoOp (Op_Corr.model_obs c)
+  | CHist i _ => MoHist (mkHOb (hist_out i) 0 false)
   end.
 
 Definition view_eqb (a b : N * cache_t) : bool := N.eqb (fst a) (fst b) && cache_eqb (snd a) (snd b).
 
+(* CHist: the events are compared per object ([same_per_object]).  Informers of different
+   namespaces run concurrently, and inside one shared informer client-go's DeltaFIFO hands over
+   the pending changes of ONE object together, ahead of changes of other objects that happened
+   in between: only the order per object is determined (it is also all the property asks for) *)
 Definition agrees (c : case) : bool :=
   match c with
   | CInf i o =>
@@ -58,6 +64,7 @@ Definition agrees (c : case) : bool :=
       && negb (mo_bad o)
   | CStress _ o => negb (ob_bad o)
   | COp c => Op_Corr.agrees c
+  | CHist i o => same_per_object (hist_out i) (ho_out o) && N.eqb (ho_before o) 0 && negb (ho_bad o)
   end.
 
 Definition spec_ok (c : case) : bool :=
@@ -66,6 +73,7 @@ Definition spec_ok (c : case) : bool :=
   | CMon i o => MP i o
   | CStress i o => P_free i o
   | COp c => C01_OpSpec.P_op c
+  | CHist i o => HP i o
   end.
 
 Definition mismatches (cs : list case) : list N := indices_where (fun c => negb (agrees c)) cs.
@@ -73,4 +81,4 @@ Definition spec_violations (cs : list case) : list N := indices_where (fun c => 
 Definition trigger_F23 (cs : list case) : list N :=
   indices_where (fun c => match c with CInf i _ => T i | _ => false end) cs.
 Definition trigger_F24 (cs : list case) : list N :=
-  indices_where (fun c => match c with CMon i _ => MT i | _ => false end) cs.
+  indices_where (fun c => match c with CMon i _ => MT i | CHist i _ => HT i | _ => false end) cs.
